@@ -140,6 +140,11 @@ def base_configs():
                   {"label": "d2", "mc": ["m2"], "maxis": A3 + [3.0], "gaxis": [1.0, 2.0, 3.0], "scale": "sc2"}],
         groups={"default": {"link_clp": True}},
         penalties=[{"source": "s3", "source_intervals": [[1.0, 2.0]], "target": "s4", "target_intervals": [[1.0, 3.0]], "parameter": "pen1"}])
+    add("linked-three-datasets-tolerance-chain",
+        datasets=[{"label": "d1", "mc": ["m1"], "maxis": A2, "gaxis": [1.0, 2.0, 3.0]},
+                  {"label": "d2", "mc": ["m1"], "maxis": A3, "gaxis": [1.1, 2.1, 4.1], "scale": "sc2"},
+                  {"label": "d3", "mc": ["m1"], "maxis": A2, "gaxis": [1.15, 2.15, 4.0], "weight": True}],
+        tol=0.2, groups={"default": {"link_clp": True}})
     add("full-model-nnls",
         gmcs={"g1": {"labels": ["a", "b"]}},
         datasets=[{"label": "d1", "mc": ["m1"], "gmc": ["g1"], "maxis": A3, "gaxis": G2}],
